@@ -548,15 +548,30 @@ class G:
             body_items = [["continue"]]
         elif shape == 2:
             body_items = []
+        elif shape in (3, 4) and cx.can_jump:
+            # observable statements followed by an unconditional tail Break / Continue
+            body_items = [self.observe(bcx, ["nary", "Add", [["load", ctr], ["int", self.i(0, 50)]]])]
+            body_items += [self.S(bcx) for _ in range(self.i(0, 2))]
+            body_items.append(["break"] if shape == 3 else ["continue"])
         else:
             body_items = [self.S(bcx) for _ in range(self.i(1, 3))]
         if not cx.can_jump:
             bcx.can_jump = False
+        after = [self.observe(cx, ["load", ctr])] if self.chance(5) else []
         if self.chance(5):
             body = ["seq", [inc] + body_items]
-            return ["seq", [["store", ctr, ["int", 0]], ["while", cond, body]]]
+            return ["seq", [["store", ctr, ["int", 0]], ["while", cond, body]] + after]
         body = ["seq", body_items] if len(body_items) != 1 or self.chance(5) else body_items[0]
-        return ["for", ["store", ctr, ["int", 0]], cond, inc, body]
+        loop = ["for", ["store", ctr, ["int", 0]], cond, inc, body]
+        return ["seq", [loop] + after] if after else loop
+
+    def observe(self, cx: Cx, uexpr):
+        """a statement that makes the uint64 value of uexpr observable in the run's outcome"""
+        if self.mode == "app" and self.level >= 5 and self.chance(7):
+            return ["log", ["un", "Itob", uexpr]]
+        if self.mode == "app":
+            return ["gput", ["bytes", self.pick(KEYS_U)], uexpr]
+        return ["assert", [["bin", "Lt", uexpr, ["int", self.pick([1, 2, 3, 5, 60])]]], None]
 
     def itxn(self, cx: Cx):
         txns = []
